@@ -8,7 +8,7 @@
    is checked by the decode oracle. *)
 From VF Require Import Base.Prelude Gen.Enums Gen.Configs Gen.Registry Gen.Checks
      Gen.MatDesc Gen.InstChecks Model.Graph Model.Perform Spec.WF Proofs.ListFacts
-     Proofs.PerformStep Proofs.ModeProofs Proofs.SharingProofs.
+     Proofs.PerformStep Proofs.ModeProofs Proofs.SharingProofs Proofs.UntouchedProofs.
 
 (* two users of a constant buffer that pass the check either both keep the
    float bytes or both rewrite them with EQUAL parameters: a float consumer
@@ -76,6 +76,47 @@ Definition ex_g : subgraph :=
                      {| t_root := 1; t_sfx := []; t_shape := 2; t_ty := TY_FLOAT32; t_buf := 1; t_q := None |} ];
      sg_ops := []; sg_inputs := []; sg_outputs := [] |}.
 Definition ex_p : qparam := {| qp_id := 3; qp_uniform := true; qp_bits := 8; qp_has_data := true |}.
+(* over WHOLE performer runs: two tensors (of any two subgraphs) that sit on
+   one buffer and are both quantized in place with the SAME parameters — which
+   is what the buffer-sharing check enforces (C15_compatible_users_agree) —
+   come back on the same buffer with the same dtype and the same annotation *)
+Theorem C15_sharers_quantized_in_place_agree :
+  forall m m' p
+         k1 g1 t1 x1 pre1 ti1 post1 i1 rest1
+         k2 g2 t2 x2 pre2 ti2 post2 i2 rest2,
+    qp_uniform p = true -> t_buf x1 = t_buf x2 ->
+    nth_opt (m_subgraphs m) k1 = Some g1 -> tensor_at g1 t1 = Some x1 -> 0 <= t1 ->
+    nth_opt (m_subgraphs m) k2 = Some g2 -> tensor_at g2 t2 = Some x2 -> 0 <= t2 ->
+    pre1 ++ ti1 :: post1 = pre2 ++ ti2 :: post2 -> ids_ok (pre1 ++ ti1 :: post1) ->
+    never_names k1 t1 pre1 -> never_names k1 t1 post1 ->
+    never_names k2 t2 pre2 -> never_names k2 t2 post2 ->
+    ti_sg ti1 = Z.of_nat k1 -> ti_insts ti1 = i1 :: rest1 -> i_tensor i1 = t1 ->
+    (i_trans i1 = Tr_QUANTIZE_TENSOR \/ i_trans i1 = Tr_ADD_DEQUANTIZE) -> i_params i1 = Some p -> agree p t1 rest1 ->
+    ti_sg ti2 = Z.of_nat k2 -> ti_insts ti2 = i2 :: rest2 -> i_tensor i2 = t2 ->
+    (i_trans i2 = Tr_QUANTIZE_TENSOR \/ i_trans i2 = Tr_ADD_DEQUANTIZE) -> i_params i2 = Some p -> agree p t2 rest2 ->
+    transform_graph m (pre1 ++ ti1 :: post1) = Ok m' ->
+    exists g1' g2' y1 y2,
+      nth_opt (m_subgraphs m') k1 = Some g1' /\ tensor_at g1' t1 = Some y1 /\
+      nth_opt (m_subgraphs m') k2 = Some g2' /\ tensor_at g2' t2 = Some y2 /\
+      t_buf y1 = t_buf y2 /\ t_ty y1 = t_ty y2 /\ t_q y1 = t_q y2 /\ t_q y1 = Some (qp_id p).
+Proof.
+  intros m m' p k1 g1 t1 x1 pre1 ti1 post1 i1 rest1 k2 g2 t2 x2 pre2 ti2 post2 i2 rest2
+         Hu Hb G1 X1 T1 G2 X2 T2 Esplit Hok N1a N1b N2a N2b S1 I1 E1 Tr1 P1 A1 S2 I2 E2 Tr2 P2 A2 H.
+  destruct (transform_graph_quantized_in_place _ _ _ _ _ _ _ _ _ _ _ _ G1 X1 T1 Hok N1a N1b S1 I1 E1 Tr1 P1 A1 H)
+    as (g1' & y1 & Hg1 & Hy1 & Q1).
+  rewrite Esplit in H, Hok.
+  destruct (transform_graph_quantized_in_place _ _ _ _ _ _ _ _ _ _ _ _ G2 X2 T2 Hok N2a N2b S2 I2 E2 Tr2 P2 A2 H)
+    as (g2' & y2 & Hg2 & Hy2 & Q2).
+  exists g1', g2', y1, y2. repeat split; try assumption.
+  - destruct Q1 as (_ & _ & _ & B1 & _), Q2 as (_ & _ & _ & B2 & _). congruence.
+  - destruct Q1 as (_ & _ & _ & _ & C1), Q2 as (_ & _ & _ & _ & C2). rewrite Hu in C1, C2.
+    destruct C1 as [C1 _], C2 as [C2 _]. rewrite C1 in C2. inversion C2. reflexivity.
+  - destruct Q1 as (_ & _ & _ & _ & C1), Q2 as (_ & _ & _ & _ & C2). rewrite Hu in C1, C2.
+    destruct C1 as [_ C1], C2 as [_ C2]. congruence.
+  - destruct Q1 as (_ & _ & _ & _ & C1). rewrite Hu in C1. exact (proj2 C1).
+Qed.
+Print Assumptions C15_sharers_quantized_in_place_agree.
+
 Example C15_nonvacuous :
   match quantize_tensor [BEmpty; BOrig 1] ex_g 0 (Some ex_p) with
   | Ok (b1, g1) =>
